@@ -23,14 +23,14 @@ Lemma rowact_l_sumn cols z i : length z = length cols ->
   rowact_l cols z i == sumn (length cols) (fun j => coefAt (ic_ent (nth j cols dcol)) i * qnth z j).
 Proof.
   revert z; induction cols as [|c cs IH]; intros [|zj zs] H; simpl in H; try discriminate; [reflexivity|].
-  cbn [rowact_l length]. rewrite sumn_shift. simpl. rewrite IH by lia. reflexivity.
+  cbn [rowact_l length]. rewrite sumn_shift. rarith. rewrite IH by lia. reflexivity.
 Qed.
 
 Lemma objval_l_sumn cols z : length z = length cols ->
   objval_l cols z == sumn (length cols) (fun j => ic_obj (nth j cols dcol) * qnth z j).
 Proof.
   revert z; induction cols as [|c cs IH]; intros [|zj zs] H; simpl in H; try discriminate; [reflexivity|].
-  cbn [objval_l length]. rewrite sumn_shift. simpl. rewrite IH by lia. reflexivity.
+  cbn [objval_l length]. rewrite sumn_shift. rarith. rewrite IH by lia. reflexivity.
 Qed.
 
 Lemma dot_l_sumn a b : length a = length b ->
@@ -38,7 +38,7 @@ Lemma dot_l_sumn a b : length a = length b ->
 Proof.
   revert b; induction a as [|x a IH]; intros [|y b] H; simpl in H; try discriminate; [reflexivity|].
   cbn [length]. rewrite sumn_shift. unfold dot_l in *. cbn [combine map qsum fold_right fst snd].
-  apply Qplus_comp; [reflexivity|]. apply IH. lia.
+  rarith. apply Qplus_comp; [reflexivity|]. apply IH. lia.
 Qed.
 
 Lemma rowact_l_ok P z i : length z = ncols P ->
@@ -51,7 +51,7 @@ Proof. intros H. unfold objval, col. apply objval_l_sumn. exact H. Qed.
 Lemma dz_l_ok P y j : wf_ilp P = true -> length y = nrows P ->
   dz_l y (col P j) == dzf P (qnth y) j.
 Proof.
-  intros W _. unfold dz_l, dzf. rewrite (dot_sparse_sumn _ _ (nrows P)) by (apply wf_ilp_col; exact W).
+  intros W _. unfold dz_l, dzf. rarith. rewrite (dot_sparse_sumn _ _ (nrows P)) by (apply wf_ilp_col; exact W).
   unfold Aij. reflexivity.
 Qed.
 
@@ -89,7 +89,7 @@ Section KKT.
     forallb2 (bound_ok I) (i_cols P) z = true /\
     forallb2 (fun c zj => dual_ok I (i_max P) c zj (dz_l y c)) (i_cols P) z = true /\
     objval P zf == v /\
-    dot_l y (i_rhs P) + qsum (map (fun c => dual_term (i_max P) c (dz_l y c)) (i_cols P)) == v.
+    radd (dot_l y (i_rhs P)) (qsum (map (fun c => dual_term (i_max P) c (dz_l y c)) (i_cols P))) == v.
   Proof.
     unfold check_kkt in CK. qb.
     repeat match goal with H : Nat.eqb _ _ = true |- _ => apply Nat.eqb_eq in H end.
@@ -199,12 +199,12 @@ Proof.
     apply andb_true_iff in Cj. destruct Cj as [C1 C2].
     destruct (Qltb (- dot_sparse (ic_ent (col P j)) y) 0) eqn:Eneg.
     - qb. simpl in C1. qb. destruct Fup as [Fup|Fup]; [congruence|].
-      rewrite Er in *. nra.
-    - qb. rewrite Er in *.
+      rarith. rewrite Er in *. nra.
+    - qb. rarith. rewrite Er in *.
       destruct (Qltb 0 (- dot_sparse (ic_ent (col P j)) y)) eqn:Epos.
       + simpl in C2. qb. rewrite Er in Epos. destruct Flo as [Flo|Flo]; [congruence|]. nra.
       + qb. rewrite Er in Epos. assert (r j == 0) by (apply Qle_antisym; assumption). nra. }
-  rewrite (dot_l_sumn y (i_rhs P) Ly) in Hpos.
+  rewrite radd_ok in Hpos. rewrite (dot_l_sumn y (i_rhs P) Ly) in Hpos.
   rewrite (qsum_map_sumn dcol) in Hpos.
   fold (ncols P) in Hpos. rewrite Ly in Hpos.
   assert (E4 : sumn (nrows P) (fun i => qnth y i * qnth (i_rhs P) i) == sumn (nrows P) (fun i => yf i * rhs P i))
